@@ -703,6 +703,16 @@ func (i *AgentIPC) handleMembers(client *IPCClient, command string, seq uint64) 
 	return client.Send(&header, &resp)
 }
 
+// compileFullMatch compiles expr so that it has to match a whole string. The
+// expression is checked on its own and then anchored as a group, so that an
+// alternation such as "foo|bar" is anchored on both sides of both branches.
+func compileFullMatch(expr string) (*regexp.Regexp, error) {
+	if _, err := regexp.Compile(expr); err != nil {
+		return nil, err
+	}
+	return regexp.Compile(fmt.Sprintf("^(?:%s)$", expr))
+}
+
 func (i *AgentIPC) filterMembers(members []serf.Member, tags map[string]string,
 	status string, name string) ([]serf.Member, error) {
 
@@ -711,19 +721,19 @@ func (i *AgentIPC) filterMembers(members []serf.Member, tags map[string]string,
 	// Pre-compile all the regular expressions
 	tagsRe := make(map[string]*regexp.Regexp)
 	for tag, expr := range tags {
-		re, err := regexp.Compile(fmt.Sprintf("^%s$", expr))
+		re, err := compileFullMatch(expr)
 		if err != nil {
 			return nil, fmt.Errorf("Failed to compile regex: %v", err)
 		}
 		tagsRe[tag] = re
 	}
 
-	statusRe, err := regexp.Compile(fmt.Sprintf("^%s$", status))
+	statusRe, err := compileFullMatch(status)
 	if err != nil {
 		return nil, fmt.Errorf("Failed to compile regex: %v", err)
 	}
 
-	nameRe, err := regexp.Compile(fmt.Sprintf("^%s$", name))
+	nameRe, err := compileFullMatch(name)
 	if err != nil {
 		return nil, fmt.Errorf("Failed to compile regex: %v", err)
 	}
